@@ -37,6 +37,11 @@ def runLog {S O : Type} (step : S → S) (obs : S → O) : Nat → S → List O 
   | 0, s, log => (s, log)
   | n + 1, s, log => let s' := step s; runLog step obs n s' (log ++ [obs s'])
 
+/-- `for _ in range(n): s = step(s)` (equal to Mathlib's `step^[n]`, lemma `iter_eq`). -/
+def iter {S : Type} (step : S → S) : Nat → S → S
+  | 0, s => s
+  | n + 1, s => iter step n (step s)
+
 /-- `for i in range(m): s = body(i, s)` -/
 def forRange {S : Type} (body : Nat → S → S) (m : Nat) (s : S) : S :=
   (List.range m).foldl (fun s i => body i s) s
